@@ -40,6 +40,22 @@
 mod verif_c14_twins {
     use super::*;
 
+    /// Checks every listed clause on its own path: Kani's `assert!` also ASSUMES its condition afterwards, so in a
+    /// plain sequence a failing earlier clause would hide a failing later one (and with it the later obligation).
+    macro_rules! check_each {
+        ($( $c:expr => $m:literal ),+ $(,)?) => {{
+            let pick: u8 = kani::any();
+            let mut k: u8 = 0;
+            $(
+                if pick == k {
+                    assert!($c, $m);
+                }
+                k += 1;
+            )+
+            let _ = k;
+        }};
+    }
+
     /// "the call returned although the input is invalid": see lib/C19_NOTES.md.
     #[inline(never)]
     fn returned_on_invalid_input() {
@@ -89,10 +105,10 @@ mod verif_c14_twins {
         let v: u16 = kani::any();
         kani::assume(v < 4);
         kani::cover!(true, "c14_twin_privilege_level_from_u16_exact: reachable");
-        assert!(
-            pl_num(PrivilegeLevel::from_u16(v)) == v,
-            "C14.PrivilegeLevel_from_u16.returns_iff_lt_4: returns the level with that number"
-        );
+        check_each! {
+            pl_num(PrivilegeLevel::from_u16(v)) == v
+                => "C14.PrivilegeLevel_from_u16.returns_iff_lt_4: returns the level with that number",
+        }
     }
 
     //@ obligation C14 C14.PrivilegeLevel_from_u16.returns_iff_lt_4
@@ -115,10 +131,10 @@ mod verif_c14_twins {
         let (p, rpl) = any_pl();
         kani::cover!(true, "c14_twin_segment_selector_new: reachable");
         let s = SegmentSelector::new(index, rpl).0;
-        assert!(
-            s == (index << 3) | p && s >> 3 == index && s & 3 == p && s & 4 == 0,
-            "C14.SegmentSelector_new.index_rpl_ti0: index in bits 3-15, RPL in bits 0-1, TI (bit 2) clear"
-        );
+        check_each! {
+            s == (index << 3) | p && s >> 3 == index && s & 3 == p && s & 4 == 0
+                => "C14.SegmentSelector_new.index_rpl_ti0: index in bits 3-15, RPL in bits 0-1, TI (bit 2) clear",
+        }
     }
 
     //@ obligation C14 C14.Descriptor_dpl.bits_45_46
@@ -126,10 +142,10 @@ mod verif_c14_twins {
     fn c14_twin_descriptor_dpl() {
         let (d, _n, lo, _hi) = any_descriptor();
         kani::cover!(true, "c14_twin_descriptor_dpl: reachable");
-        assert!(
-            pl_num(d.dpl()) == dpl_bits(lo),
-            "C14.Descriptor_dpl.bits_45_46: the privilege level is bits 45-46 of the (low) descriptor word"
-        );
+        check_each! {
+            pl_num(d.dpl()) == dpl_bits(lo)
+                => "C14.Descriptor_dpl.bits_45_46: the privilege level is bits 45-46 of the (low) descriptor word",
+        }
     }
 
     // ================================================================ tables, const-generic helpers
@@ -147,50 +163,49 @@ mod verif_c14_twins {
     /// wf_gdt ($ob: literal message starting with the obligation name) and limit() == 8 * len - 1
     macro_rules! check_wf_limit {
         ($g:expr, $len:expr, $max:expr, $ob:literal) => {{
-            assert!($g.len == $len && 1 <= $g.len && $g.len <= $max && $g.table[0].raw() == 0, $ob);
-            assert!(
-                $g.limit() as usize == 8 * $len - 1,
-                "C14.Gdt_limit.eight_times_len_minus_one: limit() == 8 * used slots - 1"
-            );
+            check_each! {
+                $g.len == $len && 1 <= $g.len && $g.len <= $max && $g.table[0].raw() == 0
+                    => $ob,
+            }
+            check_each! {
+                $g.limit() as usize == 8 * $len - 1
+                    => "C14.Gdt_limit.eight_times_len_minus_one: limit() == 8 * used slots - 1",
+            }
         }};
     }
 
     fn gdt_empty<const MAX: usize>() {
         let g = GlobalDescriptorTable::<MAX>::empty();
-        assert!(
-            g.len == 1 && 1 <= MAX && g.table[0].raw() == 0,
-            "C14.Gdt_empty.null_descriptor_only: one used slot, the null descriptor"
-        );
+        check_each! {
+            g.len == 1 && 1 <= MAX && g.table[0].raw() == 0
+                => "C14.Gdt_empty.null_descriptor_only: one used slot, the null descriptor",
+        }
         let e = g.entries();
-        assert!(
-            e.len() == 1 && e[0].raw() == 0,
-            "C14.Gdt_empty.null_descriptor_only: entries() is the null descriptor alone"
-        );
-        assert!(
-            g.limit() == 7,
-            "C14.Gdt_limit.eight_times_len_minus_one: limit() == 8 * used slots - 1"
-        );
+        check_each! {
+            e.len() == 1 && e[0].raw() == 0
+                => "C14.Gdt_empty.null_descriptor_only: entries() is the null descriptor alone",
+            g.limit() == 7
+                => "C14.Gdt_limit.eight_times_len_minus_one: limit() == 8 * used slots - 1",
+        }
     }
 
     fn gdt_from_raw_entries_exact<const MAX: usize>() {
         let (raw, len, g) = any_gdt::<MAX>();
         check_wf_limit!(g, len, MAX, "C14.Gdt_from_raw_entries.reproduces_slice_or_panics: well-formed table of the slice's length");
         let e = g.entries();
-        assert!(
-            e.len() == len,
-            "C14.Gdt_entries.used_slots_in_order: entries() has one element per used slot"
-        );
+        check_each! {
+            e.len() == len
+                => "C14.Gdt_entries.used_slots_in_order: entries() has one element per used slot",
+        }
         let mut i = 0;
         while i < MAX {
             if i < len {
-                assert!(
-                    g.table[i].raw() == raw[i],
-                    "C14.Gdt_from_raw_entries.reproduces_slice_or_panics: slot i holds word i of the slice"
-                );
-                assert!(
-                    e[i].raw() == g.table[i].raw(),
-                    "C14.Gdt_entries.used_slots_in_order: entries()[i] is slot i"
-                );
+                check_each! {
+                    g.table[i].raw() == raw[i]
+                        => "C14.Gdt_from_raw_entries.reproduces_slice_or_panics: slot i holds word i of the slice",
+                    e[i].raw() == g.table[i].raw()
+                        => "C14.Gdt_entries.used_slots_in_order: entries()[i] is slot i",
+                }
             }
             i += 1;
         }
@@ -212,33 +227,33 @@ mod verif_c14_twins {
         kani::assume(len + n <= MAX);
         let sel = g.append(d).0;
         let dpl = dpl_bits(lo);
-        assert!(
-            sel == ((len as u16) << 3) | dpl && (sel >> 3) as usize == len && sel & 3 == dpl && sel & 4 == 0,
-            "C14.Gdt_append.appends_in_order_selector_matches_or_panics_unchanged: selector index == first slot of the descriptor, RPL == DPL, TI == 0"
-        );
+        check_each! {
+            sel == ((len as u16) << 3) | dpl && (sel >> 3) as usize == len && sel & 3 == dpl && sel & 4 == 0
+                => "C14.Gdt_append.appends_in_order_selector_matches_or_panics_unchanged: selector index == first slot of the descriptor, RPL == DPL, TI == 0",
+        }
         check_wf_limit!(g, len + n, MAX, "C14.Gdt_append.appends_in_order_selector_matches_or_panics_unchanged: well-formed, length grew by the descriptor's word count");
         let e = g.entries();
-        assert!(
-            e.len() == len + n,
-            "C14.Gdt_append.appends_in_order_selector_matches_or_panics_unchanged: entries() grew by the descriptor's word count"
-        );
+        check_each! {
+            e.len() == len + n
+                => "C14.Gdt_append.appends_in_order_selector_matches_or_panics_unchanged: entries() grew by the descriptor's word count",
+        }
         let mut i = 0;
         while i < MAX {
             if i < len {
-                assert!(
-                    e[i].raw() == raw[i],
-                    "C14.Gdt_append.appends_in_order_selector_matches_or_panics_unchanged: the old entries are kept in place"
-                );
+                check_each! {
+                    e[i].raw() == raw[i]
+                        => "C14.Gdt_append.appends_in_order_selector_matches_or_panics_unchanged: the old entries are kept in place",
+                }
             } else if i == len {
-                assert!(
-                    e[i].raw() == lo,
-                    "C14.Gdt_append.appends_in_order_selector_matches_or_panics_unchanged: the (low) descriptor word follows the old entries"
-                );
+                check_each! {
+                    e[i].raw() == lo
+                        => "C14.Gdt_append.appends_in_order_selector_matches_or_panics_unchanged: the (low) descriptor word follows the old entries",
+                }
             } else if i == len + 1 && n == 2 {
-                assert!(
-                    e[i].raw() == hi,
-                    "C14.Gdt_append.appends_in_order_selector_matches_or_panics_unchanged: the high word of a system descriptor follows its low word"
-                );
+                check_each! {
+                    e[i].raw() == hi
+                        => "C14.Gdt_append.appends_in_order_selector_matches_or_panics_unchanged: the high word of a system descriptor follows its low word",
+                }
             }
             i += 1;
         }
